@@ -112,7 +112,7 @@ FAMILIES = {
     },
     "own": {
         "fix_all": None,
-        "mc": {"module": "MCOwn", "cfg": {"quick": "Own-mc-quick.cfg", "thorough": ["Own-mc-quick.cfg"]}, "timeout": {"quick": 300, "thorough": 900}},
+        "mc": {"module": "MCOwn", "cfg": {"quick": ["Own-mc-quick.cfg", "Own-mc-notif.cfg"], "thorough": ["Own-mc-quick.cfg", "Own-mc-notif.cfg", "Own-mc-thorough.cfg"]}, "timeout": {"quick": 300, "thorough": 900}},
         "trace_module": "OwnTrace", "trace_cfg": "Own-trace.cfg",
         "vh_cfg": {},
         "tiers": {"quick": {"rand": 300, "rlen": 50, "chunks": 8}, "thorough": {"rand": 6000, "rlen": 60, "chunks": 14}},
